@@ -24,7 +24,7 @@ func runC01(c *Ctx) {
 	c.Load(streamsPkg, "lang/stdio")
 	c.Rule("R01a", "E1 lockset: Stdin.{buffer,bRead,bWritten,max,dependents} are accessed only with Stdin.mutex held (constructors exempt: object not yet shared)")
 	n := c.runLockset("R01a", stdinSpecC01)
-	c.MinCount("R01a", "guarded accesses to streams.Stdin", n, 28)
+	c.MinCount("R01a", "guarded accesses to streams.Stdin", n, 20)
 
 	pk := c.Pkg(streamsPkg)
 	if pk == nil {
@@ -68,7 +68,7 @@ func runC01(c *Ctx) {
 			return true
 		})
 	})
-	c.MinCount("R01b", "stores to Stdin.buffer", nStores, 4)
+	c.MinCount("R01b", "stores to Stdin.buffer", nStores, 3)
 
 	// ------------------------------------------------------------ R01c EOF guard
 	c.Rule("R01c", "every `return _, io.EOF` in (*Stdin).Read is in the cancelled-context arm, or is guarded by both len(buffer)==0 and dependents<1 (accepted forms <1, <=0, ==0), both read in one critical section")
